@@ -389,6 +389,11 @@ func gen(t *rapid.T) Case {
 	o := ymodel.DefaultOpts()
 	set, _ := schema.Generate(t, o)
 	schema.AddAugments(t, set, 0, 4)
+	if rapid.IntRange(0, 5).Draw(t, "augment-chain") == 0 {
+		// a chain of augments over new modules (or a module and its submodules taking turns), named and written
+		// in another order than the chain
+		schema.AddAugmentChain(t, set)
+	}
 	c := Case{Set: set}
 	if rapid.IntRange(0, 3).Draw(t, "wild") == 0 {
 		c.Wild = addWild(t, set)
